@@ -1,15 +1,119 @@
-"""C13 fast-sync continuity: joiners that reset themselves from an honest peer's anchor vs full-history nodes."""
+"""C13 fast-sync continuity: joiners that reset themselves from an honest peer's anchor vs full-history nodes,
+and the reset path itself (Hashgraph.Reset / InsertFrameEvent / core.fastForward) vs the Coq model."""
+import os, re, subprocess
+import vlib
 from props import simcommon
-HARNESS = ["sim"]
-ASSUMPTIONS = ["PARTIAL: Reset / InsertFrameEvent are not in the Coq model yet; reset nodes are compared with full-history nodes (oracle), "
-               "full-history nodes with the model", "honest serving peers; anchor + frame pass through a JSON round trip as on the transport"]
+HARNESS = ["sim", "resetwit"]
+ASSUMPTIONS = [
+    "the model of the reset path (Model/HgReset.v) covers InmemStore.Reset (the store every harness node uses for joiners); "
+    "BadgerStore.Reset is not modelled",
+    "checkFastForward (signatures / frame hash) is C12/C14's model; the reset model starts after it succeeded; honest serving peers; "
+    "anchor + frame pass through a JSON round trip as on the transport",
+    "Frame.SortedFrameEvents: no two root / frame events tie on (Lamport timestamp, signature R) -- Go's sort is unstable and its input order "
+    "is a map iteration; the model's insertion sort is THE sorted order only when the keys are distinct (distinct signatures)",
+    "setHeadAndSeq / setPeers (head, seq, peer selector) are not part of the model state; the error return of setHeadAndSeq inside core.fastForward "
+    "(unreachable with InmemStore) is not modelled",
+    "setFrameEventWireInfo has no counterpart in the model state (wire fields are C15's model); its effect is covered by the oracle only",
+    "continuity after the reset is proved only under roots_sufficient (C13_continuity_round_partial); without it the statement is "
+    "refuted (C13_roots_insufficient_refuted = known finding C13-roots-insufficient); the block-level statement is a Definition",
+]
+WITNESS = os.path.join(vlib.ROOT, "corpus", "C13-roots-insufficient.trace")
+
+def replay_witness(ctx):
+    """Replay the minimised history behind C13_roots_insufficient_refuted on the real cores and on the model."""
+    if not os.path.exists(WITNESS):
+        return None
+    script, n = None, 0
+    for l in open(WITNESS):
+        if l.startswith("# SCRIPT "):
+            script = l[len("# SCRIPT "):].strip()
+        elif l.startswith("N "):
+            n += 1
+    if not script:
+        return None
+    p = subprocess.run([vlib.exe("resetwit"), "-n", str(n), "-script", script],
+                       stdout=subprocess.PIPE, stderr=subprocess.PIPE, env=vlib.GOENV, timeout=600)
+    trace = p.stdout.decode("utf-8", "replace")
+    q = subprocess.run([os.path.join(vlib.BUILD, "runner")], input=p.stdout, stdout=subprocess.PIPE,
+                       stderr=subprocess.STDOUT, timeout=600)
+    rout = q.stdout.decode("utf-8", "replace")
+    m = re.search(r"^DONE (\d+) (\d+)", rout, re.M)
+    vl = [l for l in trace.splitlines() if l.startswith("V ")]
+    return dict(rc=p.returncode, vlines=vl, cases=int(m.group(1)) if m else 0,
+                diffs=[l[:600] for l in rout.splitlines() if l.startswith("DIFF")],
+                runner_ok=bool(m) and q.returncode == 0, resets=trace.count("\nR "), script=script, n=n,
+                err=p.stderr.decode("utf-8", "replace")[-400:])
+
+def nonfresh_resets(ctx):
+    """Random scripted histories (harness/cmd/resetwit -emit) in which the fast-forwarding validator took part in the
+    gossip before falling behind: Reset from a non-trivial state, replayed on the model like everything else."""
+    n = 24 if ctx["tier"] != "thorough" else 400
+    p = subprocess.run([vlib.exe("resetwit"), "-emit", str(n), "-seed", str(ctx["seed"] * 31 + 7), "-n", "5", "-len", "300"],
+                       stdout=subprocess.PIPE, stderr=subprocess.PIPE, env=vlib.GOENV, timeout=3000)
+    q = subprocess.run([os.path.join(vlib.BUILD, "runner")], input=p.stdout, stdout=subprocess.PIPE, stderr=subprocess.STDOUT, timeout=3000)
+    trace, rout = p.stdout.decode("utf-8", "replace"), q.stdout.decode("utf-8", "replace")
+    m = re.search(r"^DONE (\d+) (\d+)", rout, re.M)
+    z = re.search(r"^Z emit scripts=(\d+) resets=(\d+) diverged=(\d+)", trace, re.M)
+    return dict(rc=p.returncode, runner_ok=bool(m) and q.returncode == 0, cases=int(m.group(1)) if m else 0,
+                diffs=[l[:600] for l in rout.splitlines() if l.startswith("DIFF")],
+                vlines=[l for l in trace.splitlines() if l.startswith("V ")],
+                scripts=int(z.group(1)) if z else 0, resets=int(z.group(2)) if z else 0, diverged=int(z.group(3)) if z else 0,
+                err=p.stderr.decode("utf-8", "replace")[-400:])
+
 def run(ctx):
     res = simcommon.run(ctx, "ff")
     findings, diffs = simcommon.findings_for(res, "C13", None)
     cov = simcommon.coverage_from(res, "Dynamic-membership histories in which half of the joiners fast-forward from a random peer's anchor "
-        "(any pending join/leave inside the six-round window included) and keep gossiping; after every action: blocks of reset nodes vs full-history "
+        "(any pending join/leave inside the six-round window included) and keep gossiping. The fast-forward itself is replayed on the model: "
+        "the block + frame + event bodies the victim received are compared with what the model of the SERVING node answers (kinds RB, RF, RC), "
+        "the model victim is reset from them (kind R) and from then on every observable of the reset node (events with round / Lamport / "
+        "round-received and coordinates, round table, blocks, signatures, queues, counters, known map, validator-set table) is compared "
+        "with the model after every action, like any other node. Oracle, after every action: blocks of reset nodes vs full-history "
         "nodes index by index (body, frame hash, peers hash), validator-set history, rounds of the events inserted after the reset.")
     ffs = sum(s.get("a:fast-forwards", 0) for s in res["stats"])
     cov["fast_forwards"] = ffs
-    cov["distinct_nontrivial"] = sum(1 for s in res["stats"] if s.get("a:fast-forwards", 0) > 0)
-    return dict(findings=findings, coverage=cov, corr_diffs=diffs)
+    cov["fast_forwards_replayed_on_model"] = ffs
+    cov["reset_node_actions_compared_with_model"] = sum(s.get("a:ff-model-compared-actions", 0) for s in res["stats"])
+    cov["frame_events_inserted"] = sum(s.get("a:ff-frame-events", 0) for s in res["stats"])
+    cov["root_events_inserted"] = sum(s.get("a:ff-root-events", 0) for s in res["stats"])
+    cov["frames_with_pending_membership_change"] = sum(s.get("a:ff-multi-peerset-frames", 0) for s in res["stats"])
+    cov["frames_by_peerset_history_length"] = {k: sum(s.get("a:ff-frames-with-%s" % k, 0) for s in res["stats"])
+                                               for k in ("1-peerset", "2-peersets", "3plus-peersets")}
+    cov["reset_node_lookup_probes"] = sum(s.get("a:ff-lookup-probes", 0) for s in res["stats"])
+    # legitimate refusals since fix a41e4c4 (at most TrustCount signers known to the joiner: C14_honest_accept_iff); statistic only
+    cov["honest_anchor_refused_too_few_known_signers"] = sum(s.get("a:honest-anchor-refused-too-few-known-signers", 0) for s in res["stats"])
+    cov["distinct_nontrivial"] = sum(1 for s in res["stats"] if s.get("a:fast-forwards", 0) > 0 and s.get("a:ff-model-compared-actions", 0) > 0)
+    cov["rule"] += (" For C13 a history is non-trivial when at least one node fast-forwarded AND went on to act afterwards "
+                    "(its later observables were compared with the model).")
+    # the refutation witness, replayed on the implementation and on the model
+    w = replay_witness(ctx)
+    if w is not None:
+        cov["witness_replay"] = dict(script=w["script"], validators=w["n"], resets=w["resets"], model_cases=w["cases"],
+                                     model_diffs=len(w["diffs"]), oracle=[v[:300] for v in w["vlines"]][:3])
+        cov["evaluations"] = cov.get("evaluations", 0) + w["cases"]
+        if w["rc"] != 0 or not w["runner_ok"]:
+            findings.append(dict(cls="harness-crash", key="resetwit replay rc=%s %s" % (w["rc"], w["err"][:200]), detail=w["err"]))
+        for d in w["diffs"][:5]:
+            diffs.append("witness-replay " + d)
+        for v in w["vlines"]:
+            m = re.search(r"^V (\S+) (\S+) (.*)$", v)
+            if m and m.group(1) == "C13":
+                findings.append(dict(cls=m.group(2), key=m.group(3)[:200], detail="witness-replay " + v))
+        if not any("round-differs-after-reset" in v for v in w["vlines"]):
+            ctx["notes"].append("the recorded witness of C13_roots_insufficient_refuted no longer diverges on this tree "
+                                "(the Coq refutation is about the model of the pinned code)")
+    # resets of validators that already had a history (the sim's joiners are fresh)
+    e = nonfresh_resets(ctx)
+    cov["nonfresh_reset_scripts"] = dict(scripts=e["scripts"], resets=e["resets"], model_cases=e["cases"], model_diffs=len(e["diffs"]),
+                                         round_divergences=e["diverged"])
+    cov["evaluations"] = cov.get("evaluations", 0) + e["cases"]
+    cov["fast_forwards_replayed_on_model"] = cov.get("fast_forwards_replayed_on_model", 0) + e["resets"]
+    if e["rc"] != 0 or not e["runner_ok"]:
+        findings.append(dict(cls="harness-crash", key="resetwit -emit rc=%s %s" % (e["rc"], e["err"][:200]), detail=e["err"]))
+    for d in e["diffs"][:5]:
+        diffs.append("nonfresh-reset " + d)
+    for v in e["vlines"][:5]:
+        m = re.search(r"^V (\S+) (\S+) (.*)$", v)
+        if m and m.group(1) == "C13":
+            findings.append(dict(cls=m.group(2), key=m.group(3)[:200], detail="nonfresh-reset " + v))
+    return dict(findings=findings[:12], coverage=cov, corr_diffs=diffs)
